@@ -367,12 +367,15 @@ def rule_set(ctx, R):
     R.floor("authenticated_stores", n)
 
 
+PW_CMP = re.compile(r"^<&*(std::string::String|str|\[u8\]|std::vec::Vec<u8>|\[A\]|std::borrow::Cow<'_, str>|std::borrow::Cow<'_, \[u8\]>|String|Vec<u8>) as std::cmp::PartialEq(<.*>)?>::(eq|ne)$")
+
+
 class PasswordEqSpec(boolpath.Spec):
     """evidence: the password supplied by the client equals the configured one (full equality of
     strings / byte slices -- not a prefix, case-insensitive or length-only comparison)"""
 
     def call(s, b, bbi, t):
-        m = re.search(r"(String|str|\[u8\]|Vec<u8>|\[A\]) as std::cmp::PartialEq(<.*>)?>::(eq|ne)$", t["f"] or "")
+        m = PW_CMP.search(t["f"] or "")
         if not m or len(t["a"]) != 2:
             return None
         srcs = [prov.operand_origins(b, x, deep=True) for x in t["a"]]
@@ -421,7 +424,7 @@ def rule_fail(ctx, R):
     cache = {}
     n = 0
     for j, tt in b.calls():
-        if not re.search(r"(String|str) as std::cmp::PartialEq(<.*>)?>::(eq|ne)$", tt["f"] or "") or tt["t"] < 0:
+        if not PW_CMP.search(tt["f"] or "") or tt["t"] < 0:
             continue
         srcs = [prov.operand_origins(b, x) for x in tt["a"]]
         if not any(any(f.endswith("NetworkConfig.password") for f in P.fields) for P in srcs):
@@ -536,3 +539,33 @@ def rule_config_failclosed(ctx, R):
                 R.finding(fn, "config-load:error-edge-starts-server",
                           "when %s fails (line %d) %s goes on to start the server (line %d) with another configuration: a `requirepass` in the file that could not be loaded is lost and every connection is served without authentication" % (c.split("::")[-1], b.bb_line(i), fn.split("::")[-1], b.bb_line(serve[0])), b.loc(serve[0]))
     R.floor("configuration_loads", n)
+
+
+# ---- R-AUTH-ARG ---------------------------------------------------------------------------------
+def rule_auth_arg(ctx, R):
+    """`only the exact password authenticates`, client side: the password the client supplied
+    reaches the comparison with the configured one as it was sent -- strictly decoded (invalid
+    UTF-8 refused) or as bytes, never through a lossy decoding, case mapping, trimming or cutting
+    (a non-injective step makes byte strings that are not the password compare equal to it)."""
+    import flow
+    n = 0
+    for fn, b in sorted(ctx.prog.bodies.items()):
+        if not fn.startswith("network::") or "::tests::" in fn:
+            continue
+        for i, t in b.calls():
+            if not PW_CMP.search(t["f"] or "") or len(t["a"]) != 2:
+                continue
+            srcs = [prov.operand_origins(b, x, deep=True) for x in t["a"]]
+            cfgside = [k for k, P in enumerate(srcs) if any(f.endswith("NetworkConfig.password") for f in P.fields)]
+            if len(cfgside) != 1:
+                continue
+            n += 1
+            cl = t["a"][1 - cfgside[0]]
+            calls = flow.flow_calls(ctx, fn, cl, seen={(fn, p) for p in range(1, b.nargs + 1)})
+            bad = sorted((c, w, bb) for (c, w, bb) in calls if ALTERING.search(c or ""))
+            R.inst(fn, "password-comparison", {"function": fn, "at": b.loc(i), "calls_on_the_supplied_password_flow": len(calls), "altering": [shared.short_callee(c) for c, _, _ in bad][:3]})
+            if bad:
+                c, w, bb = bad[0]
+                R.finding(fn, "password-comparison:supplied-side-altered-by:%s" % re.search(r"::(\w+)(::<.*>)?$", c).group(1),
+                          "the password the client supplied is compared (line %d) after passing through %s (%s): the step is not injective, so byte strings that are not the password compare equal to it (every invalid UTF-8 sequence becomes U+FFFD and matches a U+FFFD in the configured password)" % (b.bb_line(i), shared.short_callee(c), ctx.prog.bodies[w].loc(bb)), b.loc(i))
+    R.floor("password_comparisons", n)
